@@ -14,7 +14,7 @@
    NOT modelled (decided by search only — clifs -mode fs: generated trees x invocation shapes against a reference of the
    documented rules): flag parsing, createTasks / NewTask (which files are selected and where they go), filter
    patterns, attribute preservation, stdin/stdout plumbing. *)
-From MV Require Import Base.MvBytes Cli.CliModel Cli.CliProofs Cli.CliFinal Cli.ConcatModel Cli.ConcatProofs Cli.GlobModel Cli.GlobSpec Cli.GlobProofs.
+From MV Require Import Base.MvBytes Cli.CliModel Cli.CliProofs Cli.CliFinal Cli.ConcatModel Cli.ConcatProofs Cli.GlobModel Cli.GlobSpec Cli.GlobProofs Cli.PathModel Cli.PathProofs.
 
 Theorem inplace_task_spec : forall p orig r outs f,
   f p = Some orig -> concat outs = payload orig r ->
@@ -104,3 +104,52 @@ Example filters_nonvacuous :
   file_filter [] [(false, excl); (true, incl)] (b [115; 114; 99; 47; 98; 97; 114; 47; 97]) = false /\     (* src/bar/a *)
   glob_matches (b [97; 63]) (b [97]) = false /\ glob_matches (b [97; 63]) (b [97; 98]) = true.
 Proof. vm_compute. repeat split; reflexivity. Qed.
+
+(* ---------- the destination below an output directory ("directory mirror of the input tree") ----------
+   Cli/PathModel.v transcribes Go's filepath.Clean / Join / Dir / Rel (Unix) on byte strings and NewTask of main.go: when
+   the output argument is "." or ends in a separator the destination is Join(output, Rel(root, input)).  Tied to the real
+   functions and to the real NewTask through the verif test hook on ~550 (root, input, output) triples per run.
+   For every clean root and input below it (components: non-empty, not "." or "..", no separator; root "." included),
+   whatever the output directory is spelled like (relative with leading "..", rooted, with "." / ".." / empty components):
+   Rel gives back exactly the components of the input below the root; the destination is the cleaned output directory
+   followed by exactly these components — every name kept as it is, hidden files included; two different inputs below one
+   root never share a destination; and the destination never leaves the output directory. *)
+Theorem rel_gives_the_path_below_root : forall rooted rc rest,
+  plain_list rc = true -> plain_list rest = true ->
+  rel (show (rooted, rc)) (show (rooted, rc ++ rest)) = Some (show (false, rest)).
+Proof. exact T1_rel_prefix. Qed.
+Print Assumptions rel_gives_the_path_below_root.
+
+Theorem destination_mirrors_the_input_tree : forall rooted rc rest output,
+  plain_list rc = true -> plain_list rest = true -> is_dir_output output = true ->
+  new_task_dst (show (rooted, rc)) (show (rooted, rc ++ rest)) output =
+    Some (show (fst (cleaned output), snd (cleaned output) ++ rest)).
+Proof. exact T3_dst_mirrors. Qed.
+Print Assumptions destination_mirrors_the_input_tree.
+
+Theorem no_two_inputs_share_a_destination : forall rooted rc rest1 rest2 output,
+  plain_list rc = true -> plain_list rest1 = true -> plain_list rest2 = true -> is_dir_output output = true ->
+  new_task_dst (show (rooted, rc)) (show (rooted, rc ++ rest1)) output =
+  new_task_dst (show (rooted, rc)) (show (rooted, rc ++ rest2)) output -> rest1 = rest2.
+Proof. exact T4_dst_injective. Qed.
+Print Assumptions no_two_inputs_share_a_destination.
+
+Theorem destination_stays_below_the_output_directory : forall rooted rc rest output dst,
+  plain_list rc = true -> plain_list rest = true -> is_dir_output output = true ->
+  new_task_dst (show (rooted, rc)) (show (rooted, rc ++ rest)) output = Some dst ->
+  snd (cleaned dst) = snd (cleaned output) ++ rest /\ clean dst = dst.
+Proof. exact T5_dst_comps. Qed.
+Print Assumptions destination_stays_below_the_output_directory.
+
+Theorem a_file_output_is_taken_as_it_is : forall root input output,
+  is_dir_output output = false -> new_task_dst root input output = Some output.
+Proof. exact T6_file_output. Qed.
+Print Assumptions a_file_output_is_taken_as_it_is.
+
+(* non-vacuity: hidden names keep their dot (the seeded change U19-m3 broke exactly this) *)
+Example destinations_nonvacuous :
+  new_task_dst [46] [46; 97; 46; 106; 115; 111; 110] [46; 46; 47; 111; 117; 116; 47] =
+    Some [46; 46; 47; 111; 117; 116; 47; 46; 97; 46; 106; 115; 111; 110] /\      (* "." ".a.json" "../out/" -> "../out/.a.json" *)
+  new_task_dst [115; 114; 99] [115; 114; 99; 47; 115; 117; 98; 47; 46; 98] [111; 117; 116; 47] =
+    Some [111; 117; 116; 47; 115; 117; 98; 47; 46; 98].                            (* "src" "src/sub/.b" "out/" -> "out/sub/.b" *)
+Proof. vm_compute. split; reflexivity. Qed.
